@@ -182,3 +182,22 @@ func verifBoundSelectDefaults(n int) {}
 func verifBoundTryFailures(n int)     {}
 func verifPendingAfterFuncs() int        { return 0 }
 func verifCondWaiters(c *sync.Cond) int   { return 1 }
+
+var verifHooks = map[string]func(){}
+
+// verifBefore registers an environment action; the instrumented build calls verifHook(name) before every
+// call of the named library function (only reflect.Select is hookable natively).
+func verifBefore(model string, f func()) {
+	verifRT.mu.Lock()
+	verifHooks[model] = f
+	verifRT.mu.Unlock()
+}
+
+func verifHook(name string) {
+	verifRT.mu.Lock()
+	f := verifHooks[name]
+	verifRT.mu.Unlock()
+	if f != nil {
+		f()
+	}
+}
